@@ -227,6 +227,18 @@ func (x *Exec) havocFootprint(st *State, callee *ssa.Function) {
 				return !extPkgs[n.Obj().Pkg().Path()]
 			}
 		}
+		// elements of slices whose element type is (a pointer to) a repository type: only repository code can store them
+		// (stores, append and copy in the reach are in `written`); dependencies get at them only through reflection
+		if strings.HasPrefix(name, "E|") {
+			parts := strings.Split(name, "|")
+			t := typeByID[parts[1]]
+			if p, ok := t.(*types.Pointer); ok {
+				t = p.Elem()
+			}
+			if n, ok := t.(*types.Named); ok && n.Obj().Pkg() != nil && inRepo(n.Obj().Pkg().Path()) {
+				return !extPkgs["*dynamic*"]
+			}
+		}
 		// a variable reached through a pointer (*int, *string, ...): preserved when no store through such a pointer is in the
 		// reach and no dependency function in the reach is handed a pointer to that type
 		if strings.HasPrefix(name, "C|") {
@@ -268,6 +280,9 @@ func (x *Exec) footprintExternalPkgs(callee *ssa.Function) map[string]bool {
 					}
 					if cf, ok := c.Common().Value.(*ssa.Function); ok && !inRepo(pkgPathOf(cf)) {
 						sig := cf.Signature
+						if readOnlyExtern(cf) {
+							continue
+						}
 						var note func(t types.Type, d int)
 						note = func(t types.Type, d int) {
 							if d > 2 {
@@ -981,6 +996,10 @@ func (x *Exec) doCopy(st *State, in *ssa.Call, args []Value) Value {
 				mkImplies(inside, mkEq(mkSelect(row, j), mkSelect(srcRow, mkAdd(src.Off, mkSub(j, dst.Off))))),
 				mkImplies(mkNot(inside), mkEq(mkSelect(row, j), mkSelect(dstRow, j))))))
 			st.heap[name] = mkStore(h, dst.Arr, row)
+			if b, ok := et.Underlying().(*types.Basic); ok && b.Kind() == types.Uint8 {
+				// the copied bytes read as the same string
+				x.assume(mkEq(ufApp(ufStrOfBytes, row, dst.Off, n), ufApp(ufStrOfBytes, srcRow, src.Off, n)))
+			}
 		}
 	case *Term: // copy([]byte, string)
 		n = x.fresh("copyn", SInt)
@@ -1054,4 +1073,17 @@ func plainDataArgs(sig *types.Signature) bool {
 		}
 	}
 	return true
+}
+
+// readOnlyExtern: standard-library functions that only read what their arguments reach (formatting, string and rune helpers,
+// regular-expression matching). Assumption: Stringer/Error/Format methods they may call on repository values do not write.
+func readOnlyExtern(f *ssa.Function) bool {
+	p := pkgPathOf(f)
+	switch p {
+	case "strings", "strconv", "unicode", "unicode/utf8", "errors", "regexp", "math":
+		return true
+	case "fmt":
+		return strings.HasPrefix(f.Name(), "Sprint") || f.Name() == "Errorf"
+	}
+	return false
 }
